@@ -125,14 +125,24 @@ FileManagement g_files;
 // ---- hook H4 --------------------------------------------------------------------------------
 struct VmRec { intptr_t offset; uintptr_t h; bool marked; };
 std::map<const ScriptVM*, VmRec> g_last;
-std::vector<uintptr_t> g_ends;
+std::vector<std::string> g_ends;
 std::set<std::string> g_trans;
 size_t g_instr = 0;
 
 void probe(const ScriptVM* vm, intptr_t offset, uintptr_t h, size_t, bool marked)
 {
     if (offset < 0) {
-        g_ends.push_back(h);
+        // a thread that ends at statement level (OP_DONE, a command statement such as `end`, `remove`)
+        // must leave an empty stack; one that is destroyed from outside while an expression of it is
+        // in progress (`local.r = waitthread f` whose callee removes the caller's group) is marked k
+        bool statementLevel = true;
+        auto it = g_last.find(vm);
+        const ProgramScript* scr = vm->m_ScriptClass ? vm->m_ScriptClass->GetScript() : nullptr;
+        if (it != g_last.end() && scr && it->second.offset >= 0 && (size_t)it->second.offset < scr->GetProgLength()) {
+            const opval_t op = scr->GetProgBuffer()[it->second.offset];
+            statementLevel = op == OP_DONE || (op >= OP_EXEC_CMD0 && op <= OP_EXEC_CMD_METHOD_COUNT1);
+        }
+        g_ends.push_back((statementLevel ? "" : "k") + std::to_string(h));
         g_last.erase(vm);
         return;
     }
